@@ -27,6 +27,8 @@ def scratch_copy():
 def props_of(patch):
     if patch.endswith('patch.diff'):
         meta = json.load(open(os.path.join(os.path.dirname(patch), 'meta.json')))
+        if meta.get('superseded'):
+            return []          # no longer a property-breaking change on the repaired tree (see meta.json)
         p = meta['property']
         return p if isinstance(p, list) else [p]
     for l in open(patch):
